@@ -36,12 +36,12 @@ def record(ctx, nproc, n):
 
 def run(ctx):
     work = common.stage_spec(os.path.join(ctx.tmp, "spec-conn"))
-    mc = common.run_tlc(work, "Connection", cfg="MC_Connection.cfg", workers=10, timeout=1500)
+    mc = common.run_tlc(work, "Connection", cfg="MC_Connection.cfg" if ctx.quick else "MC_Connection_thorough.cfg", workers=12, timeout=3000)
     common.require_ok(mc, "MC Connection (safety)")
-    live = common.run_tlc(work, "Connection", cfg="MC_Connection_live.cfg", workers=10, timeout=1500)
+    live = common.run_tlc(work, "Connection", cfg="MC_Connection_live.cfg" if ctx.quick else "MC_Connection_live_thorough.cfg", workers=12, timeout=3000)
     common.require_ok(live, "MC Connection (Close terminates under fairness)")
     found = common.run_tlc(work, "Connection", cfg="MC_Connection_found.cfg", workers=4, timeout=600)
-    allobs = record(ctx, 6, 8 if ctx.quick else 80)
+    allobs = record(ctx, 6, 8 if ctx.quick else 300)
     res = common.oracle_pass(ctx, allobs, "OracleLifecycle", nchunks=6, timeout=1200)
     lines = open(allobs).read().splitlines()
     nops, kinds, distinct, samples = 0, {}, set(), []
